@@ -245,7 +245,9 @@ Definition write_bounds (m : mode) (k : cst) (c : content) (cdims : list string)
     let size := last (b_shape b) 0%Z in
     let base := match k_bdim k with Some d => d | None => ("bounds" ++ nat_str (Z.to_nat size))%string end in
     let '(bdim, s1) :=
-      match find (fun d => option_eqb Z.eqb (dim_size s d) (Some size)) (w_bdims s) with
+      (* a name set on the bounds: only a bounds dimension of that name is reused (commit c147c03) *)
+      match find (fun d => match k_bdim k with Some n => String.eqb d n | None => true end &&
+                           option_eqb Z.eqb (dim_size s d) (Some size)) (w_bdims s) with
       | Some d => (d, s)
       | None => let '(n, s') := netcdf_name base s in (n, upd_bdims (fun l => l ++ [n]) s')
       end in
@@ -293,13 +295,16 @@ Definition dimcoord_name (m : mode) (ax : axis) (k : cst) (c : content) (s : wst
     end.
 
 (* returns (netCDF variable, netCDF dimension of the axis) *)
-Definition write_dimcoord (m : mode) (ax : axis) (k : cst) (c : content) (s : wst)
+(* [used]: the netCDF dimensions of the other axes of this field (commit
+   a6b4a67: an equal coordinate variable whose dimension another axis of the
+   field already has is not taken again) *)
+Definition write_dimcoord (m : mode) (used : list string) (ax : axis) (k : cst) (c : content) (s : wst)
   : (string * string) * wst :=
   let create :=
     match find_seen false c None s with
     | None => None
     | Some e => match e_ncdims e with
-                | d0 :: _ => if String.eqb (e_ncvar e) d0 then Some (e_ncvar e, d0) else None
+                | d0 :: _ => if String.eqb (e_ncvar e) d0 && negb (smem d0 used) then Some (e_ncvar e, d0) else None
                 | [] => Some (e_ncvar e, "")
                 end
     end in
@@ -450,7 +455,7 @@ Definition write_axis (m : mode) (f : field) (dims : list cst) (i : nat) (ax : a
   match dim_for i dims 0 with
   | Some (p, k) =>
     if nmem i (f_daxes f) then
-      let '((nv, nd), s1) := write_dimcoord m ax k (k_c k) s in
+      let '((nv, nd), s1) := write_dimcoord m (map snd (x_a2d x)) ax k (k_c k) s in
       ({| x_a2d := (i, nd) :: x_a2d x; x_dimvar := (p, nv) :: x_dimvar x; x_coords := x_coords x;
           x_span := x_span x |}, s1)
     else
